@@ -358,7 +358,9 @@ def run(ctx):
                 if c < 0.18:
                     # the variable is edited between two defuzzifications: a value assigned while lock-range is off and the lock
                     # switched on afterwards, or the range narrowed around the value it holds - the held value is what it is
-                    edit = rnd.choice(["value then lock", "narrow range", "toggle lock-previous", "default"])
+                    edit = rnd.choice(["value then lock", "narrow range", "toggle lock-previous", "default", "unlock range", "widen range", "unlock range"])
+                    held_before = np.array(ov.value, dtype=float, copy=True)
+                    prev_before = np.array(ov.previous_value, dtype=float, copy=True)
                     if edit == "value then lock":
                         was = ov.lock_range
                         ov.lock_range = False
@@ -366,11 +368,24 @@ def run(ctx):
                         ov.lock_range = rnd.choice([True, was])
                     elif edit == "narrow range" and math.isfinite(lo) and math.isfinite(hi):
                         ov.maximum = lo + 0.5 * (hi - lo)
+                    elif edit == "unlock range":
+                        ov.lock_range = False
+                    elif edit == "widen range":
+                        if math.isfinite(lo) and math.isfinite(hi):
+                            ov.minimum, ov.maximum = lo - 5.0, hi + 5.0
                     elif edit == "toggle lock-previous":
                         ov.lock_previous = not ov.lock_previous
                     else:
                         ov.default_value = rnd.choice([nan, lo if math.isfinite(lo) else 0.0, (hi if math.isfinite(hi) else 1.0) + 1.0])
                     ctx.hit("event:variable edited between defuzzifications")
+                    if edit in ("narrow range", "toggle lock-previous", "default", "unlock range", "widen range"):
+                        # the settings say how the *next* defuzzified value is treated: the value held, and the recorded previous
+                        # value, are what they were
+                        ctx.evaluated()
+                        now, prev_now = np.asarray(ov.value, dtype=float), np.asarray(ov.previous_value, dtype=float)
+                        if now.shape != held_before.shape or not bool(np.all((now == held_before) | (np.isnan(now) & np.isnan(held_before)))) or not bool(np.all((prev_now == prev_before) | (np.isnan(prev_now) & np.isnan(prev_before)))):
+                            ctx.violation("the value an output variable holds changes when a setting of the cascade is edited", {"edit": edit, "range": [lo, hi]}, [held_before, prev_before], [now, prev_now])
+                        ctx.hit("law:editing the settings leaves the held value alone")
                     hist.append("edit:" + edit)
                     continue
                 if c < 0.26:
@@ -443,6 +458,7 @@ def run(ctx):
         reach.report(ctx)
     ctx.exhaustive = True
     ctx.extra["exhaustive_space"] = f"4^n sequences (n<=3 fully, n<={L} with sampled forms/faults) x 2^(n-1) splits x 12 settings x 4 result forms x failure at each call x clear"
+    ctx.require("law:editing the settings leaves the held value alone")
     ctx.require("piece:defuzzified while holding an empty batch", "piece:empty batch defuzzified")
     ctx.require("range:mixed magnitudes", "event:observer between steps", *[f"environment:{e}" for e in ENVIRONMENTS])
     ctx.require("event:Engine.process observed", "event:processed with an empty fuzzy output", "event:variable edited between defuzzifications", "event:two variables given the same array as value", "workload:large batch")
